@@ -3,11 +3,13 @@
    block-modes 0.8.1 (`Cbc::new_from_slices`, `encrypt_vec`, `decrypt_vec`), block-padding 0.2.1
    (`Pkcs7`), aes 0.7.5 (`Aes128Ctr`/`Aes256Ctr` = 64-bit big-endian counter in the low 8 IV bytes).
 
-   The model describes the library AFTER the two repairs of C20/C09:
-     * wrong key / IV sizes give Err in all four modes (the unrepaired CTR arms panic in
-       `key.into()` / `iv.into()`, GenericArray::from_slice length assertion);
-     * CBC decryption rejects a removed padding longer than one block (block-padding 0.2.1
-       `Pkcs7::unpad` only checks n <= buffer length, so the unrepaired code accepts 17..255).
+   The model describes the library with the two repairs of C09/C20 in place:
+     * d992bd9: wrong key / IV sizes give Err in all four modes (`T::new_from_slices` in `aes_ctr`;
+       the unrepaired CTR arms panicked in `key.into()` / `iv.into()`);
+     * d6b6852: CBC decryption rejects a removed padding longer than one block
+       (`message.len() - result.len() > 16`; block-padding 0.2.1 `Pkcs7::unpad` only checks
+       n <= buffer length, so the unrepaired code accepted 17..255).
+   `decrypt_unrepaired` keeps the old behaviour for the witness lemmas.
    No proofs here (Proofs/AesApiProofs.v). *)
 From BSV Require Import Base.Bytes Prim.Aes.
 
@@ -17,7 +19,7 @@ Definition key_len (a : algo) : nat :=
   match a with AES128_CBC | AES128_CTR => 16 | AES256_CBC | AES256_CTR => 32 end.
 Definition iv_len : nat := 16.
 
-(* `new_from_slices(key, iv)?` (CBC) and the size checks added to the CTR arms *)
+(* `Cbc::new_from_slices(key, iv)?` and `T::new_from_slices(key, iv)` in `aes_ctr` *)
 Definition sizes_ok (a : algo) (key iv : bytes) : bool :=
   Nat.eqb (length key) (key_len a) && Nat.eqb (length iv) iv_len.
 
@@ -33,7 +35,7 @@ Definition decrypt_vec (key iv ct : bytes) : outcome bytes :=
   if negb (Nat.eqb (Nat.modulo (length ct) 16) 0) then Err
   else of_option (unpad_lax (cbc_raw_dec key iv ct)).
 
-(* repaired CBC arm of decrypt_impl: a padding longer than one block is an error *)
+(* CBC arm of decrypt_impl followed by the check `message.len() - result.len() > 16 -> Err` *)
 Definition decrypt_cbc (key iv ct : bytes) : outcome bytes :=
   do m <- decrypt_vec key iv ct;
   if Nat.ltb 16 (length ct - length m) then Err else Ok m.
